@@ -448,6 +448,13 @@ func c13diff(a, b any) string {
 		for _, k := range keys {
 			if _, ok := vb[k]; !ok {
 				if !strings.HasPrefix(k, "s:") {
+					// a key that is not a string: recorded finding when it comes back as its text with the same
+					// content; anything else is an entry that was lost or filed under a different key
+					if i := strings.Index(k, ":"); i >= 0 {
+						if e, ok := vb["s:"+k[i+1:]]; ok && c13diff(va[k], e) == "" {
+							return "non-string-key-stringified"
+						}
+					}
 					return "non-string-key-missing"
 				}
 				return "key-missing"
